@@ -48,6 +48,20 @@ pub fn document() -> (IotaDocument, IotaDID, IotaDID) {
         .unwrap(),
     )
     .unwrap();
+  // the document's own DID in every relationship, embedded and by reference
+  for (i, (scope, rel)) in [
+    (MethodScope::authentication(), identity_verification::MethodRelationship::Authentication),
+    (MethodScope::assertion_method(), identity_verification::MethodRelationship::AssertionMethod),
+    (MethodScope::key_agreement(), identity_verification::MethodRelationship::KeyAgreement),
+    (MethodScope::capability_delegation(), identity_verification::MethodRelationship::CapabilityDelegation),
+    (MethodScope::capability_invocation(), identity_verification::MethodRelationship::CapabilityInvocation),
+  ]
+  .into_iter()
+  .enumerate()
+  {
+    document.insert_method(method(&did_self, &format!("#self-rel-{i}")), scope).unwrap();
+    document.attach_method_relationship(&did_self.to_url().join("#did-self").unwrap(), rel).unwrap();
+  }
   document.set_controller([did_foreign.clone(), did_self.clone()]);
   // methods and services may belong to non-IOTA DIDs
   let other = CoreDID::parse("did:example:123").unwrap();
@@ -383,7 +397,7 @@ pub fn iota_did(cex: &Value) -> Result<String, String> {
     let mut log = Vec::new();
     let tag_l = "0xabcdef0123456789abcdef0123456789abcdef0123456789abcdef0123456789";
     let tag_u = "0xABCDEF0123456789ABCDEF0123456789ABCDEF0123456789ABCDEF0123456789";
-    let ok_inputs = [format!("did:iota:{tag_l}"), format!("did:iota:rms:{tag_l}"), format!("did:iota:iota:{tag_l}"), format!("DID:IOTA:{tag_u}"), format!("did:iota:a1b2c3:{tag_l}")];
+    let ok_inputs = [format!("did:iota:{tag_l}"), format!("did:iota:rms:{tag_l}"), format!("did:iota:iota:{tag_l}"), format!("DID:IOTA:{tag_u}"), format!("did:iota:a1b2c3:{tag_l}"), format!("did:iota:0xab:{tag_l}"), format!("did:iota:0x:{tag_l}")];
     for s in &ok_inputs {
       match IotaDID::parse(s) {
         Err(e) => log.push(format!("[valid] {s:?} rejected: {e}")),
@@ -502,7 +516,7 @@ pub fn iota_did(cex: &Value) -> Result<String, String> {
     // every network name is kept exactly (only the default network's name is omitted) - in particular names that contain, start or
     // end with the default name; every such DID re-parses, exposes that name and differs from the default-network DID
     let default_did = IotaDID::new(&[0xab; 32], &NetworkName::try_from("iota").unwrap());
-    for name in ["iota2", "iotax", "iota42", "iotaa", "xiota", "1iota", "aiota", "iot", "io", "i", "ota", "iotb", "jota", "main", "smr", "a", "a1b2c3"] {
+    for name in ["iota2", "iotax", "iota42", "iotaa", "xiota", "1iota", "aiota", "iot", "io", "i", "ota", "iotb", "jota", "main", "smr", "a", "a1b2c3", "0x", "0xab", "0xdev", "0", "x0x"] {
       let Ok(n) = NetworkName::try_from(name.to_owned()) else {
         log.push(format!("[network] network name {name:?} rejected"));
         continue;
@@ -519,6 +533,25 @@ pub fn iota_did(cex: &Value) -> Result<String, String> {
         }
         if d == default_did {
           log.push(format!("[normal] network {name:?} via {how}: equal to the default-network DID with the same tag"));
+        }
+        // ordering and hashing agree with equality: the same tag on another network is another DID for Ord and Hash as well
+        {
+          use std::hash::{Hash, Hasher};
+          let h = |x: &IotaDID| {
+            let mut s = std::collections::hash_map::DefaultHasher::new();
+            x.hash(&mut s);
+            s.finish()
+          };
+          if d.cmp(&default_did) == std::cmp::Ordering::Equal || d.partial_cmp(&default_did) == Some(std::cmp::Ordering::Equal) {
+            log.push(format!("[cmp] network {name:?} via {how}: compares Equal to the default-network DID with the same tag"));
+          }
+          if h(&d) == h(&default_did) {
+            log.push(format!("[cmp] network {name:?} via {how}: hashes like the default-network DID"));
+          }
+          let twin = IotaDID::parse(d.to_string()).unwrap();
+          if d.cmp(&twin) != std::cmp::Ordering::Equal || h(&d) != h(&twin) {
+            log.push(format!("[cmp] network {name:?} via {how}: an equal value orders / hashes differently"));
+          }
         }
         if IotaDID::parse(d.to_string()).ok().as_ref() != Some(&d) {
           log.push(format!("[normal] network {name:?} via {how}: {d} does not re-parse to an equal value"));
